@@ -6,6 +6,8 @@ set -e
 D="${1:-/tmp/ev}"
 mkdir -p "$D"
 [ -d "$D/repo" ] || git -C /repo worktree add -q --detach "$D/repo" HEAD
+# VERIF_NOSYNC=1: keep the mirror as it is (a long run started from one state of /verif is not disturbed by later edits)
+if [ -n "${VERIF_NOSYNC:-}" ] && [ -d "$D/verif" ]; then exit 0; fi
 git -C "$D/repo" checkout -q --detach "$(git -C /repo rev-parse HEAD)"
 rsync -a --delete --exclude .git --exclude bin --exclude violations --exclude evidence /verif/ "$D/verif/"
 mkdir -p "$D/verif/evidence"
